@@ -102,6 +102,16 @@ class Tracker:
                 ev.append("N")
             self.saved_log(msg)
         logger.log = tlog
+        # the end of the classification phase: ProtocolMultiplexer.getProtocol returns (or raises)
+        import pygopherd.protocols.ProtocolMultiplexer as pm
+        self.pm, self.saved_get = pm, pm.getProtocol
+
+        def tget(*a, **k):
+            try:
+                return self.saved_get(*a, **k)
+            finally:
+                ev.append("|")
+        pm.getProtocol = tget
 
         def mk(base):
             class T(base):
@@ -128,6 +138,7 @@ class Tracker:
         hbase.open = topen
 
     def remove(self):
+        self.pm.getProtocol = self.saved_get
         self.logger.log = self.saved_log
         self.hbase.__dict__.pop("open", None)
 
